@@ -44,8 +44,13 @@ func (f *BinaryField) GenEncodeInto() (string, error) {
 
 func (f *BinaryField) GenReadFrom() (string, error) {
 	g := strErrBuf{}
+	// Never allocate more than the input can still provide (l is attacker-controlled).
+	g.printlnf("if rem := reader.Length() - reader.Pos(); rem < 0 || l > enc.TLNum(rem) {")
+	g.printlnf("err = io.ErrUnexpectedEOF")
+	g.printlnf("} else {")
 	g.printlnf("value.%s = make([]byte, l)", f.name)
 	g.printlnf("_, err = io.ReadFull(reader, value.%s)", f.name)
+	g.printlnf("}")
 	return g.output()
 }
 
